@@ -200,7 +200,7 @@ class Check:
         self.cov["discharged"] = self.cov.get("discharged", 0) + discharged
         self.cov.setdefault("theorems", []).extend(thms)
         allax = sorted({a for v in axioms_used.values() for a in v})
-        self.cov["axioms_reported_by_Print_Assumptions"] = allax
+        self.cov["axioms_reported_by_Print_Assumptions"] = sorted(set(self.cov.get("axioms_reported_by_Print_Assumptions", [])) | set(allax))
         self.statements = statements
         return problems
 
